@@ -9,6 +9,7 @@
 import GoNeat.Proofs.WFLemmas
 import GoNeat.Proofs.WFParam
 import GoNeat.Proofs.WFStruct
+import GoNeat.Proofs.WFMate
 import GoNeat.Props.C04
 import GoNeat.Props.C05
 import GoNeat.Props.C06
@@ -463,5 +464,121 @@ theorem mutateAddNode_wf (g g' : Genome W) (reg reg' : Reg W) (o : MutOpts W) (r
                   { id := reg.nextNode + 1, kind := Kind.hidden, act := act, trait := tr0 }
                   rfl rfl (by simp only; omega) rfl ⟨rfl, rfl, rfl⟩
                   ⟨rfl, rfl, rfl, rfl⟩ ⟨rfl, rfl⟩ (hgenes _ _) (hnodes _) hi
+
+/-! ## the three crossovers
+
+The child under construction satisfies `AccInv` from the prologue on (averaged traits with the first parent's ids,
+copies of the second parent's input/bias/output nodes) and every "add the chosen gene to the baby" keeps it:
+links stay distinct *because of* the same-link conflict check, endpoints are added as nodes before the gene, trait
+pointers are re-targeted into the child's traits.  The walks collect genes in strictly ascending innovation order.
+`SameLineage` (a node id has one role in both parents, same input/bias/output ids) gives "no link into a sensor"
+and the retention of the first parent's input/bias/output nodes. -/
+
+omit [Scalar W] in
+theorem walkInv_start (p1 p2 : Genome W) (nt : List (Trait W)) (nodes : List Node) (l1 l2 : List (Gene W))
+    (h : AccInv p1 p2 nt { nodes := nodes, genes := [] }) : WalkInv p1 p2 nt { nodes := nodes, genes := [] } l1 l2 :=
+  ⟨h, by simp [GenesSorted], by simp, by simp⟩
+
+/-- **multipoint crossover preserves well-formedness** and retains the input/bias/output nodes of both parents -/
+theorem mateMultipoint_wf (g og : Genome W) (id : Int) (f1 f2 : W) (rs rs' : List Nat) (c : Genome W)
+    (hw1 : WFT g) (hw2 : WFT og) (hl : SameLineage g og)
+    (h : mateMultipoint g og id f1 f2 rs = .ok (c, rs')) : WFT c ∧ Retains og c ∧ Retains g c := by
+  unfold mateMultipoint at h
+  split at h
+  · cases h
+  · rename_i nt t0 nodes hpro
+    simp only at h
+    split at h
+    · cases h
+    · rename_i acc rs1 hwalk
+      simp only [Except.ok.injEq, Prod.mk.injEq] at h
+      obtain ⟨rfl, _⟩ := h
+      obtain ⟨hids, hz, hacc⟩ := matePrologue_spec g og nt t0 nodes hpro hw1 hw2
+      obtain ⟨a, b, c⟩ := multipointWalk_inv g og nt t0 _ g.genes og.genes _ rs acc rs1 hz hw1.wf.genesSorted
+        hw2.wf.genesSorted (fun _ hx => hx) (fun _ hy => hy) (walkInv_start g og nt nodes _ _ hacc) hwalk
+      have hne : acc.genes ≠ [] := by
+        apply c
+        right
+        cases hb : p1Better f1 f2 g.genes.length og.genes.length
+        · exact Or.inr ⟨rfl, hw2.wf.hasGene⟩
+        · exact Or.inl ⟨rfl, hw1.wf.hasGene⟩
+      exact child_wft g og nt acc id a b hne hw1 hw2 hl hids
+
+/-- **averaging multipoint crossover preserves well-formedness** -/
+theorem mateMultipointAvg_wf (g og : Genome W) (id : Int) (f1 f2 : W) (rs rs' : List Nat) (c : Genome W)
+    (hw1 : WFT g) (hw2 : WFT og) (hl : SameLineage g og)
+    (h : mateMultipointAvg g og id f1 f2 rs = .ok (c, rs')) : WFT c ∧ Retains og c ∧ Retains g c := by
+  unfold mateMultipointAvg at h
+  split at h
+  · cases h
+  · rename_i nt t0 nodes hpro
+    simp only at h
+    split at h
+    · cases h
+    · rename_i acc rs1 hwalk
+      simp only [Except.ok.injEq, Prod.mk.injEq] at h
+      obtain ⟨rfl, _⟩ := h
+      obtain ⟨hids, hz, hacc⟩ := matePrologue_spec g og nt t0 nodes hpro hw1 hw2
+      obtain ⟨a, b, c⟩ := multipointAvgWalk_inv g og nt t0 _ g.genes og.genes _ rs acc rs1 hz hw1.wf.genesSorted
+        hw2.wf.genesSorted (fun _ hx => hx) (fun _ hy => hy) (walkInv_start g og nt nodes _ _ hacc) hwalk
+      have hne : acc.genes ≠ [] := by
+        apply c
+        right
+        cases hb : p1Better f1 f2 g.genes.length og.genes.length
+        · exact Or.inr ⟨rfl, hw2.wf.hasGene⟩
+        · exact Or.inl ⟨rfl, hw1.wf.hasGene⟩
+      exact child_wft g og nt acc id a b hne hw1 hw2 hl hids
+
+/-  Full-strength statement of the property for single-point crossover (FALSE of the code, see
+    `C01_singlepoint_counterexample` below — known finding K1):
+
+      theorem mateSinglePoint_wf_full (hw1 : WFT g) (hw2 : WFT og) (hl : SameLineage g og)
+          (h : mateSinglePoint g og id rs = .ok (c, rs')) : WFT c ∧ Retains og c ∧ Retains g c
+
+    What is proved: the same under the additional hypothesis `SharedHead g og` (first genes carry the same innovation
+    number), which holds in every population spawned from one genome. -/
+
+/-- **single-point crossover preserves well-formedness for parents that share their first gene** -/
+theorem C01_singlepoint_partial (g og : Genome W) (id : Int) (rs rs' : List Nat) (c : Genome W)
+    (hw1 : WFT g) (hw2 : WFT og) (hl : SameLineage g og) (hh : SharedHead g og)
+    (h : mateSinglePoint g og id rs = .ok (c, rs')) : WFT c ∧ Retains og c ∧ Retains g c := by
+  unfold mateSinglePoint at h
+  split at h
+  · cases h
+  · rename_i nt t0 nodes hpro
+    simp only at h
+    split at h
+    · cases h
+    · rename_i cp rs1 _
+      split at h
+      · cases h
+      · rename_i acc rs2 hwalk
+        simp only [Except.ok.injEq, Prod.mk.injEq] at h
+        obtain ⟨rfl, _⟩ := h
+        obtain ⟨hids, hz, hacc⟩ := matePrologue_spec g og nt t0 nodes hpro hw1 hw2
+        -- the two first genes
+        obtain ⟨x, xs, hx⟩ : ∃ x xs, g.genes = x :: xs := by
+          cases hg : g.genes with
+          | nil => exact absurd hg hw1.wf.hasGene
+          | cons x xs => exact ⟨x, xs, rfl⟩
+        obtain ⟨y, ys, hy⟩ : ∃ y ys, og.genes = y :: ys := by
+          cases hg : og.genes with
+          | nil => exact absurd hg hw2.wf.hasGene
+          | cons y ys => exact ⟨y, ys, rfl⟩
+        have hxy : x.inn = y.inn := by
+          unfold SharedHead at hh
+          rw [hx, hy] at hh
+          simpa using hh
+        by_cases hsh : g.genes.length < og.genes.length
+        · simp only [hsh, decide_true, ↓reduceIte] at hwalk
+          obtain ⟨a, b, c⟩ := singlePointWalk_inv g og g og (Or.inl ⟨rfl, rfl⟩) nt t0 cp g.genes og.genes 0 none _ rs1
+            acc rs2 hz hw1.wf.genesSorted hw2.wf.genesSorted (fun _ h => h) (fun _ h => h) hacc (by simp [GenesSorted])
+            (by simp) (by simp) hwalk
+          exact child_wft g og nt acc id a b (c (Or.inr ⟨x, xs, y, ys, hx, hy, hxy⟩)) hw1 hw2 hl hids
+        · simp only [hsh, decide_false, Bool.false_eq_true, ↓reduceIte] at hwalk
+          obtain ⟨a, b, c⟩ := singlePointWalk_inv g og og g (Or.inr ⟨rfl, rfl⟩) nt t0 cp og.genes g.genes 0 none _ rs1
+            acc rs2 hz hw2.wf.genesSorted hw1.wf.genesSorted (fun _ h => h) (fun _ h => h) hacc (by simp [GenesSorted])
+            (by simp) (by simp) hwalk
+          exact child_wft g og nt acc id a b (c (Or.inr ⟨y, ys, x, xs, hy, hx, hxy.symm⟩)) hw1 hw2 hl hids
 
 end GoNeat.C01
